@@ -273,7 +273,7 @@ def logmatmulexp_contract(ctx):
     if p is None:
         return
     okp = len(prods) == 1
-    ctx.oblige("C02/logmatmulexp/struct/one_matrix_product", okp, [], props, kind="struct", fn=fnq)
+    ctx.oblige("C02/logmatmulexp/struct/one_matrix_product", okp, [], props, kind="applicability", fn=fnq)
     if not okp:
         return
     a_e, b_e = prods[0]
